@@ -7,7 +7,6 @@ namespace Ubx
 inductive Exc
   | valueError | structError | keyError | typeError | attributeError | indexError
   | assertionError | recursionError
-  | nonAscii      -- not a Python exception: input outside the domain of the model (text byte ≥ 0x80)
 deriving DecidableEq, Repr
 
 /-- value of a little-endian byte string -/
